@@ -220,7 +220,8 @@ def fault_injection(ctx, build, stats):
 
 def check(ctx):
     build = C.ensure_built("C11", ["disk"])
-    found, stats = c09.explore(ctx, build, ["reopen"], lambda s: ["file", "afile", "gfile"], "C11")
+    # (the `big` stream: sparse images of more than 2^20 blocks, addresses that agree modulo 2^20 — every block is the last value written)
+    found, stats = c09.explore(ctx, build, ["reopen", "big"], lambda s: ["file", "afile", "gfile"], "C11")
     stats["fault_runs"] = 0
     stats["kill_runs"] = 0
     stats["fault_classes"] = collections.Counter()
